@@ -142,7 +142,6 @@ H("c09_gate_pair", props=["C09", "C05"], fns=[(INJ, "will_execute")], expects_pa
 H("c09_gate_async", props=["C09", "C05", "C14"], fns=[(INJ, "will_return_async")], expects_panic=True, bounded=_B, **_MODS_INJ)
 H("c09_gate_mixed", props=["C09", "C05"], fns=[(INJ, "will_execute_raw"), (INJ, "when_called_unchecked")], expects_panic=True, bounded=_B, covers=[], covers_unreachable=["COVER:not-refused"], **_MODS_INJ)
 H("c09_null", props=["C09"], fns=[(FPT, "new")], covers=[], covers_unreachable=["COVER:constructed-from-null"], expect_fail_desc="expect_failed", min_obligations=2, **_MODS_INJ)
-H("c10_gate_unstructured", tiers=("thorough",), timeout=7200, props=["C10", "C05"], fns=[(INJ, "will_return_boolean"), (INJ, "signature_returns_bool")], expects_panic=True, bounded=_B, covers=[], covers_unreachable=["COVER:not-refused"], **_MODS_INJ)
 H("c07_reset", props=["C07"], fns=[(INJ, "will_execute")], covers=["COVER:end", "COVER:stale-count"], **_MODS_INJ)
 _INJ_FNS = [(INJ, "new", 1), (INJ, "prevent"), (INJ, "lock"), (INJ, "drop")]
 H("c04_injector_holds", props=["C04"], fns=_INJ_FNS + [(INJ, "will_execute_raw"), (INJ, "will_return_boolean")], min_obligations=8, **_MODS_INJ)
@@ -440,7 +439,7 @@ claim("C17",
 for _p, _extra in (("C02", [TB_RUSTC]), ("C04", ["std::sync::Mutex: at most one guard at a time under every schedule (assumed library contract)"]), ("C07", [])):
     PROPS[_p]["trusted_base"] = PROPS[_p].get("trusted_base", []) + _extra
 
-for _h in ("c09_gate_raw", "c09_gate_pair", "c09_gate_async", "c09_gate_mixed", "c10_gate_unstructured"):
+for _h in ("c09_gate_raw", "c09_gate_pair", "c09_gate_async", "c09_gate_mixed"):
     HARNESSES[_h]["variant_thorough"] = "long"
 
 # obligations that decide more than the property their name carries
